@@ -60,6 +60,16 @@ PairSwaps(fn, b, typ) ==
     [] fn = "ReadLeaseSet2" -> (LET r == RefLeaseSet2(b) IN IF r.ok THEN Sw(r.optOff, r.optPairs) ELSE << >>)
     [] fn = "ReadMetaLeaseSet" -> (LET r == RefMetaLeaseSet(b) IN IF r.ok THEN Sw(r.optOff, r.optPairs) ELSE << >>)
     [] OTHER -> << >>
+\* layout-preserving multi-byte defects: the key of the second option pair overwritten with the key of the first (a duplicate key),
+\* when both keys have the same length.  Sequence of [off, bytes].
+DefectPatches(fn, b, typ) ==
+  LET Dup(optOff, pairs) ==
+        IF Len(pairs) >= 2 /\ Len(pairs[1][1]) = Len(pairs[2][1]) /\ Len(pairs[1][1]) >= 1
+        THEN << [off |-> optOff + 2 + Len(SerPair(pairs[1])) + 1, bytes |-> pairs[1][1]] >> ELSE << >> IN
+  CASE fn = "ReadRouterInfo" -> (LET r == RefRouterInfo(b) IN IF r.ok THEN Dup(r.optOff, r.optPairs) ELSE << >>)
+    [] fn = "ReadLeaseSet2" -> (LET r == RefLeaseSet2(b) IN IF r.ok THEN Dup(r.optOff, r.optPairs) ELSE << >>)
+    [] fn = "ReadMetaLeaseSet" -> (LET r == RefMetaLeaseSet(b) IN IF r.ok THEN Dup(r.optOff, r.optPairs) ELSE << >>)
+    [] OTHER -> << >>
 \* offsets of plain content bytes inside the covered region (flipping one keeps the structure parseable): published / date fields, a key byte
 ContentOffsets(fn, b, typ) ==
   CASE fn = "ReadRouterInfo" -> (LET r == RefRouterInfo(b) IN IF r.ok THEN << r.pubOff + 7, r.pubOff + 3 >> ELSE << >>)
